@@ -41,7 +41,7 @@ pub uninterp spec fn prefix_h(op: Seq<char>) -> Option<Fn1>;
 pub uninterp spec fn postfix_h(op: Seq<char>) -> Option<Fn1>;
 pub uninterp spec fn func_h(name: Seq<char>) -> Option<FnN>;
 pub broadcast axiom fn axiom_same_entry(op: Seq<char>) ensures #[trigger] infix_ty(op) is Some <==> #[trigger] infix_h(op) is Some;
-pub struct InfixOpManager {}
+#[verifier::external_body] pub struct InfixOpManager { x: u8 }     // opaque: an empty struct would make every handle equal, and a view that is a function of the handle could then never change
 impl InfixOpManager {
   #[verifier::external_body] pub fn new() -> Self { unimplemented!() }
   #[verifier::external_body] pub fn get_precidence(&self, op: &str) -> (i32, i32) { unimplemented!() }
@@ -50,19 +50,19 @@ impl InfixOpManager {
   #[verifier::external_body] pub fn get_handler(&self, op: &str) -> (r: Result<Fn2>)
       ensures (r is Ok) == infix_h(op@).is_some(), r matches Ok(t) ==> t == infix_h(op@).unwrap() { unimplemented!() }
 }
-pub struct PrefixOpManager {}
+#[verifier::external_body] pub struct PrefixOpManager { x: u8 }     // opaque: an empty struct would make every handle equal, and a view that is a function of the handle could then never change
 impl PrefixOpManager {
   #[verifier::external_body] pub fn new() -> Self { unimplemented!() }
   #[verifier::external_body] pub fn get(&self, op: &str) -> (r: Result<Fn1>)
       ensures (r is Ok) == prefix_h(op@).is_some(), r matches Ok(t) ==> t == prefix_h(op@).unwrap() { unimplemented!() }
 }
-pub struct PostfixOpManager {}
+#[verifier::external_body] pub struct PostfixOpManager { x: u8 }     // opaque: an empty struct would make every handle equal, and a view that is a function of the handle could then never change
 impl PostfixOpManager {
   #[verifier::external_body] pub fn new() -> Self { unimplemented!() }
   #[verifier::external_body] pub fn get(&self, op: &str) -> (r: Result<Fn1>)
       ensures (r is Ok) == postfix_h(op@).is_some(), r matches Ok(t) ==> t == postfix_h(op@).unwrap() { unimplemented!() }
 }
-pub struct InnerFunctionManager {}
+#[verifier::external_body] pub struct InnerFunctionManager { x: u8 }     // opaque: an empty struct would make every handle equal, and a view that is a function of the handle could then never change
 impl InnerFunctionManager {
   #[verifier::external_body] pub fn new() -> Self { unimplemented!() }
   #[verifier::external_body] pub fn get(&self, op: &str) -> (r: Result<FnN>)
